@@ -2,7 +2,7 @@
 C14 — driver: replays an implementation trace through the model (correspondence) and the spec (monitor).
 
 cfg:  via=<fromdb|named|namedbad|onconn|cached> accept=<none|user>
-op:   tx api=<plain|ctx|ctxdone|ctxdead> begin=<ok|fail> bad=<n> stmts=<[xXfiqYghnmNM]*|->
+op:   tx api=<plain|ctx|ctxdone|ctxdead> begin=<ok|fail> bad=<n> stmts=<[xXfiqYghnmNMpP]*|->
          end=<ok|err:<cls>|panic|panicerr|panicnil> commit=<ok|fail|panic> rollback=<ok|fail|panic>
          brk=<allow|reject> cancel=<-|c<k>|d<k>>
 obs:  log=<BB,B,E0,Q1!,C|-> runs=<n> body=<notrun|nil|panic|err:<src>> ret=<nil|is:<src+…|->/says:<src+…|->>
@@ -10,7 +10,8 @@ obs:  log=<BB,B,E0,Q1!,C|-> runs=<n> body=<notrun|nil|panic|err:<src>> ret=<nil|
 
 statement letters: x exec ok, result not looked at · X exec ok, `if err != nil { return err }` · f exec fault, body
 returns it · i exec fault, body ignores it · q / Y / g / h the same for a query · n nested Transact, error returned ·
-m nested Transact, error ignored · N / M the same through the nested TransactCtx
+m nested Transact, error ignored · N / M the same through the nested TransactCtx · p / P a statement prepared
+inside the transaction (Session.Prepare[Ctx], executed, closed): ok and checked / fault returned
 bad=<n>: the driver answers Begin with driver.ErrBadConn n times first (log BB).
 cancel=c<k> / d<k>: the context given to TransactCtx is cancelled / runs into its deadline just before statement k
 (k = number of statements: just before the body ends); api=ctxdead: the deadline has passed before the call.
@@ -151,6 +152,8 @@ def parseStmt : Char → Option Stmt
   | 'm' => some { kind := .nest, fails := true, prop := false }
   | 'X' => some { kind := .exec, fails := false, prop := true }
   | 'Y' => some { kind := .query, fails := false, prop := true }
+  | 'p' => some { kind := .exec, fails := false, prop := true }     -- prepared inside the transaction
+  | 'P' => some { kind := .exec, fails := true, prop := true }
   | 'N' => some { kind := .nest, fails := true, prop := true }
   | 'M' => some { kind := .nest, fails := true, prop := false }
   | _ => none
@@ -288,6 +291,8 @@ def runSection (r : Report) (s : Section) : Report := Id.run do
           r := r.addCover "stmt-error-ignored"
         if op.b.stmts.any (fun st => st.prop && !st.fails && st.kind != .nest) then
           r := r.addCover "stmt-ok-error-checked"
+        if ((kv? l.op "stmts").getD "").toList.any (fun c => c == 'p' || c == 'P') then
+          r := r.addCover "stmt-prepared-in-tx"
         -- the classes of fault points of this round
         if op.f.badConn > 0 then
           r := r.addCover (s!"begin-badconn-{min op.f.badConn 4}" ++ (if op.f.opens then "-then-opened" else "-not-opened"))
